@@ -84,6 +84,23 @@ static void history_noise(const char* dir, int64_t ci) { const char* nz = getenv
     if (n & 1) { vrng_t r2; vrng_seed(&r2, (uint64_t)ci * 7919u + (uint64_t)n); tgen_t gp = {4, 60, 0, -1, -1, -1, 0, 0}; table_t* t2 = tbl_generate(&r2, &gp); char p2[512]; snprintf(p2, sizeof p2, "%s/noise.parquet", dir); twrite_result_t wr2; (void)tbl_write_path(&r2, t2, p2, &wr2); unlink(p2); tbl_free(t2); v_count("history_noise_writes"); }
     scribble_stack(n * 37 + 1); v_count("stack_scribbles"); }
 
+static void run_case(table_t* t, const char* dir, int64_t ci, const char* tag);
+/* a table whose single page body is exactly the given bytes: one REQUIRED FIXED_LEN_BYTE_ARRAY(1) column, one row group, one batch,
+ * one page. Lets the generator place literal runs, match offsets and match lengths of the LZ77-family codecs on their format
+ * boundaries (length-extension bytes at 15+255k, Snappy's 60/64-byte and 2048/65536 limits, LZ4's end-of-block rules). */
+static table_t* bytes_table(int codec, const uint8_t* b, int64_t n) {
+    table_t* t = (table_t*)calloc(1, sizeof *t); t->ncols = 1; t->cols = (tcol_t*)calloc(1, sizeof(tcol_t)); tcol_t* col = &t->cols[0]; col->type = CARQUET_PHYSICAL_FIXED_LEN_BYTE_ARRAY; col->type_length = 1; col->rep = CARQUET_REPETITION_REQUIRED; snprintf(col->name, sizeof col->name, "bytes");
+    t->nrg = 1; t->rg = (tchunk_t**)calloc(1, sizeof(tchunk_t*)); t->rg_rows = (int64_t*)calloc(1, 8); t->codec = codec; t->page_size = 1 << 22; t->rg_rows[0] = n; t->rg[0] = (tchunk_t*)calloc(1, sizeof(tchunk_t)); tchunk_t* k = &t->rg[0][0];
+    k->nlevels = n; k->def = (int16_t*)calloc((size_t)n + 1, 2); k->rep = (int16_t*)calloc((size_t)n + 1, 2); k->nvals = n; k->fixed = (uint8_t*)v_exact((size_t)n + 1); memcpy(k->fixed, b, (size_t)n); k->nbatches = 1; k->batch_rows = (int64_t*)malloc(8); k->batch_rows[0] = n; return t; }
+static void codec_boundary_cases(const char* dir, uint64_t seed, int count) { char tag[160];
+    static const int64_t RS[] = {1, 3, 4, 8, 11, 12, 13, 14, 15, 16, 17, 59, 60, 61, 254, 255, 256, 269, 270, 271, 524, 525, 526, 779, 780, 781, 1034, 1035, 2047, 2048, 2049, 4095, 4096, 32767, 32768, 32769, 65534, 65535, 65536, 65537};
+    static const int64_t LS[] = {4, 5, 6, 7, 8, 11, 12, 14, 15, 16, 18, 19, 20, 33, 59, 60, 61, 63, 64, 65, 66, 67, 68, 69, 128, 129, 130, 131, 132, 273, 274, 275, 528, 1000, 4096, 70000};
+    static const int64_t TS[] = {0, 0, 1, 3, 4, 5, 6, 11, 12, 13, 14, 15, 16, 270, 525};
+    for (int q = 0; q < count; q++) { int codec = T_CODECS[1 + q % 4]; int64_t r = vrng_chance(&R, 2, 3) ? RS[vrng_below(&R, sizeof RS / sizeof *RS)] : 1 + (int64_t)vrng_below(&R, 3000); int64_t L = vrng_chance(&R, 2, 3) ? LS[vrng_below(&R, sizeof LS / sizeof *LS)] : 4 + (int64_t)vrng_below(&R, 400); int64_t tl = TS[vrng_below(&R, sizeof TS / sizeof *TS)];
+        int64_t n = r + L + tl; uint8_t* b = (uint8_t*)malloc((size_t)n + 1); vrng_bytes(&R, b, (size_t)r); for (int64_t i = r; i < r + L; i++) b[i] = b[i - r]; vrng_bytes(&R, b + r + L, (size_t)tl);
+        if (vrng_chance(&R, 1, 4)) { /* a second match further on, so that one sequence follows another */ int64_t off2 = 1 + (int64_t)vrng_below(&R, (uint64_t)(r < 1 ? 1 : r)); for (int64_t i = r + L; i < n; i++) b[i] = b[i - off2]; }
+        table_t* t = bytes_table(codec, b, n); snprintf(tag, sizeof tag, "codec-boundary seed=%llu codec=%d literal=%lld match_len=%lld tail=%lld", (unsigned long long)seed, codec, (long long)r, (long long)L, (long long)tl); run_case(t, dir, 200000 + q, tag); v_count("codec_boundary_pages"); tbl_free(t); free(b); } }
+
 static void run_case(table_t* t, const char* dir, int64_t ci, const char* tag) {
     char path[512]; snprintf(path, sizeof path, "%s/c.parquet", dir); unlink(path); history_noise(dir, ci);
     twrite_result_t wr; int created = tbl_write_path(&R, t, path, &wr);
@@ -109,6 +126,7 @@ int main(int argc, char** argv) {
         { static const int NC[] = {9, 10, 11, 12, 13, 14, 15, 16, 17, 18, 31, 32, 33, 63, 64, 65, 127, 128, 129}; static const int NG[] = {5, 6, 7, 8, 13, 14, 15, 16, 17, 31, 32, 33};
           for (int q = 0; q < (int)(sizeof NC / sizeof *NC) + (int)(sizeof NG / sizeof *NG); q++) { int wide = q < (int)(sizeof NC / sizeof *NC); tgen_t g2 = {8, 12, 0, -1, -1, -1, 0, wide ? 1 + (int)vrng_below(&R, 2) : NG[q - (int)(sizeof NC / sizeof *NC)], wide ? NC[q] : 1 + (int)vrng_below(&R, 3)};
               table_t* t = tbl_generate(&R, &g2); snprintf(tag, sizeof tag, "shape seed=%llu cols=%d row_groups=%d", (unsigned long long)seed, t->ncols, t->nrg); run_case(t, dir, 100000 + q, tag); v_count(wide ? "shape_sweep_wide_tables" : "shape_sweep_many_row_groups"); tbl_free(t); } }
+        codec_boundary_cases(dir, seed, scale >= 2 ? 600 : 120);
         v_sample("gen: %lld random tables: 1..8 columns over 7 physical types x REQUIRED/OPTIONAL, 1..4 row groups, rows 0..400 (some up to 60000), 5 codecs, page_size {1,64,1024,65536,default}, batch partitions {single,1-row,small,random incl. 0-row,halving}, interleaved columns", (long long)cases);
     } else if (!strcmp(mode, "enum")) {
         /* all (null pattern x batch partition) pairs for one OPTIONAL column of n rows; all batch partitions for a boolean column */
